@@ -322,3 +322,7 @@ mod tests {
         assert_eq!(human_time(Duration::from_secs(1234)), "21min 34s");
     }
 }
+
+#[cfg(kani)]
+#[path = "/verif/kani/stats.rs"]
+pub(crate) mod verif_kani;
